@@ -625,7 +625,7 @@ CON = [R + 'console.c', R + 'ringbuf.c'] + FIB
 prop('C15',
      'exh: every stream of length 7 (quick) / 9 (thorough) over {a, space, \', ", backspace, Ctrl-C, newline} that '
      'contains a newline, delivered with console_process; rand: streams of 1-5 lines with lengths clustered at 0, 1 and '
-     '77..82, bare and quoted tokens (blanks and the other quote inside), edits (junk+backspaces, over- and '
+     '77..82, bare and quoted tokens (blanks and the other quote inside) separated by any of blank, tab, CR, VT, FF, edits (junk+backspaces, over- and '
      'under-erasing, Ctrl-C and retype), delivered in turn by console_process, console_putchar+scheduler (bursts <= 15) '
      'and console_eval, with commands that exit at once or yield 1-3 times; reg: 0-39 registrations in random order '
      'from a pool sorting on both sides of the built-ins, every name then looked up, unknown and near-miss names, the '
@@ -635,7 +635,7 @@ prop('C15',
             args={'quick': ['--extra', 'exh'], 'thorough': ['--extra', 'exh']}, timeout={'quick': 900, 'thorough': 7200}),
       Stage('rand', ['harness/console.c'], CON, preset='asan', nproc=16,
             args={'quick': ['--extra', 'rand'], 'thorough': ['--extra', 'rand']},
-            needs_min={'dispatches_compared_functionally': 50000, 'streams_with_line_near_the_79_limit': 10000,
+            needs_min={'dispatches_compared_functionally': 50000, 'streams_with_line_near_the_79_limit': 10000, 'streams_with_cr_vt_ff_between_words': 10000,
                        'eval_injections': 10000}),
       Stage('reg', ['harness/console.c'], CON, preset='asan', nproc=8,
             args={'quick': ['--extra', 'reg'], 'thorough': ['--extra', 'reg']},
